@@ -2,6 +2,7 @@ package props
 
 import (
 	"errors"
+	"strings"
 	"fmt"
 	"io"
 	"reflect"
@@ -183,6 +184,22 @@ func failErrOf(name string) error {
 	default:
 		return errReset
 	}
+}
+
+// sameFailure: the published error is the injected one, possibly wrapped or re-worded around its text.
+func sameFailure(got, injected error) bool {
+	return got != nil && (errors.Is(got, injected) || strings.Contains(got.Error(), injected.Error()))
+}
+
+// sentinelDump is the deep-dump hash of what the parser makes of a frame when called directly.
+func sentinelDump(frame []byte) uint64 {
+	var h uint64
+	fw.Recover(func() {
+		if m, err := of.Parse(append([]byte(nil), frame...)); err == nil && !isNil(m) {
+			h, _ = dumpHash(m)
+		}
+	})
+	return h
 }
 
 func recycleEvery(c *fw.Ctx, n int64) {
